@@ -10,11 +10,13 @@ using namespace std;
 StringTokenizer::StringTokenizer(const std::string& s, const std::string& delimiters, bool solid, bool allowEmptyTokens) :
   tokens_(),
   splits_(),
+  lead_(),
   currentPosition_(0)
 {
   if (!solid)
   {
     string::size_type index = s.find_first_not_of(delimiters, 0);
+    lead_ = s.substr(0, index);
     while (index != s.npos)
     {
       string::size_type newIndex = s.find_first_of(delimiters, index);
@@ -74,11 +76,13 @@ void StringTokenizer::removeEmptyTokens()
 std::string StringTokenizer::unparseRemainingTokens() const
 {
   string s;
-  for (size_t i = currentPosition_; i + 1 < tokens_.size(); ++i)
+  if (currentPosition_ == 0)
+    s = lead_;
+  for (size_t i = currentPosition_; i < tokens_.size(); ++i)
   {
-    s += tokens_[i] + splits_[i];
+    s += tokens_[i];
+    if (i < splits_.size())
+      s += splits_[i]; // Including the delimiters that follow the last token.
   }
-  if (numberOfRemainingTokens() > 0)
-    s += tokens_.back();
   return s;
 }
